@@ -181,14 +181,36 @@ LAMBDAS = [('0', 0.0), ('1e-3', 1e-3), ('-0.7', -0.7), ('30', 30.0), ('-1e3', -1
 
 
 def queries(tier, seed):
-    """query points for closest(): [(name, x)]"""
+    """query points for closest(): [(name, x)]; the magnitude is tied to the pool index of the generic letter"""
     out = [('O', np.zeros(3))]
-    g = alph.pick(alph.G_VEC3, tier, seed, 4)
-    ms = [1e-3, 1.0, 1e3] if tier == 'quick' else [1e-3, 1e-1, 1.0, 10.0, 1e3]
-    for i, (n, v) in enumerate(g):
-        m = ms[i % len(ms)]
+    ms = [1e-3, 1.0, 1e3]
+    for n, v in alph.pick(alph.G_VEC3, tier, seed, 4):
+        m = ms[int(n[1:]) % 3]
         out.append(('%s*%g' % (n, m), m * alph.unit(v)))
     out.append(('ez*1e3', np.array([0, 0, 1e3])))
+    return out
+
+
+def motions(tier, seed):
+    """SE(3) generator set; the thorough set contains the quick set of every seed"""
+    if tier == 'quick':
+        return alph.gen_SE(3, tier, seed)
+    out = list(alph.gen_SE(3, tier, seed))
+    have = set(n for n, _ in out)
+    rots = dict(alph.gen_SO3(tier, seed))
+    trs = dict(alph.translations(3, tier, seed))
+    want = []
+    for n, _ in alph.gen_SE(3, 'quick', 0):
+        rn, tn = n.split('|t=')
+        if rn.startswith('rod(g'):
+            want += ['%s|t=%s' % (r, tn) for r in rots if r.startswith('rod(g')]
+        else:
+            want.append(n)
+    for n in want:
+        if n not in have:
+            rn, tn = n.split('|t=')
+            out.append((n, ref.rt(rots[rn], trs[tn])))
+            have.add(n)
     return out
 
 
@@ -289,18 +311,15 @@ def build(ld):
     return ok, L, 'Plucker.Planes'
 
 
-def all_descs(tier, seed, pair=False):
+def all_letters(tier, seed):
+    """letter tuples of every (base line, constructor); the last entry says whether the pair family runs on it"""
     out = []
     for pt, mag, P in points(tier, seed):
         for dn, u in directions(tier, seed):
             for ln_name, ln in lens(tier):
                 for ctor, form, phi in CTORS:
-                    ld = make_desc(ctor, form, phi, pt, mag, P, dn, u, ln_name, ln)
-                    if ld is None:
-                        continue
-                    ld.pair = ((mag in PAIR_MAGS or mag == '0') and ln_name in PAIR_LENS and
-                               (ctor, form, phi) in PAIR_CTORS)
-                    out.append(ld)
+                    pair = ((mag in PAIR_MAGS or mag == '0') and ln_name in PAIR_LENS and (ctor, form, phi) in PAIR_CTORS)
+                    out.append((ctor, form, phi, pt, mag, P, dn, u, ln_name, ln, pair))
     return out
 
 
@@ -556,7 +575,7 @@ def fam_single(ctx, ld, L, okL, siteL, tier, seed):
 
     # ---- T * L
     second = ld.Q if ld.Q is not None else ld.pref + ld.d
-    for tn, T in alph.gen_SE(3, tier, seed):
+    for tn, T in motions(tier, seed):
         cid = base + '/rmul/T=%s' % tn
         if not ctx.want(cid):
             continue
@@ -751,7 +770,12 @@ def fam_pairs(ctx, ld, L1):
             continue
         ok2, L2 = build2(ld, args)
         if not ok2:
-            raise HarnessError('second line could not be built: %r %r' % (args, L2))   # constructors are checked in the single family
+            cid = pre + 'ctor2'
+            if ctx.want(cid):
+                ctx.case(cid, key=('ctor2', k1, tag))
+                ctx.fail(cid, 'Plucker.' + (ld.ctor if args[0] == 'same' else args[0]), 'raises:' + type(L2).__name__,
+                         dict(P0, method='ctor', **prm), 'constructor of the second line raised %r' % (L2,))
+            continue
         M = magnitude(defnorms + pts2, max(ld.ln, norm(args[2]) if len(args) > 2 and args[0] == 'PointDir' else ld.ln))
         rel = prm['rel']
         dref = 0.0 if rel in ('intersecting', 'coincident') else ll_dist(ld.pref, ld.uref, p2, u2)
@@ -931,12 +955,16 @@ def run_shard(ctx, shard):
     if kind == 'planes':
         fam_planes(ctx, tier, seed)
         return
-    descs = all_descs(tier, seed)
+    letters = all_letters(tier, seed)
     # pair-family lines are much heavier than the others: deal both kinds round-robin separately
-    heavy = [d for d in descs if d.pair]
-    light = [d for d in descs if not d.pair]
-    mine = heavy[k::n] + light[k::n]
-    for ld in mine:
+    heavy = [l for l in letters if l[-1]]
+    light = [l for l in letters if not l[-1]]
+    for l in heavy[k::n] + light[k::n]:
+        ld = make_desc(*l[:-1])
+        if ld is None:
+            ctx.count('dropped_out_of_domain_lines')
+            continue
+        ld.pair = l[-1]
         base = ld.base()
         if ctx.only is not None and not ctx.only.startswith(base + '/'):
             continue
